@@ -61,7 +61,7 @@ def run(ctx):
         nontriv = any(e["ev"] in ("s_bin", "s_iop") or (e["ev"] == "d_pop" and e["res"]["present"]) for e in tr["events"])
         ctx.count(json.dumps(tr["events"], sort_keys=True)[:20000] if nontriv else None)
     ctx.sample({"events": [{k: v for k, v in e.items() if k not in ("others",)} for e in traces[0]["events"][5:11]]}, limit=3)
-    ctx.trace("util/TraceSpans", traces, batch=50,
+    ctx.trace("util/TraceSpans", traces, batch=50, workers=4,
               key_of=lambda tr, l, clause: "trace:%s:%s" % (clause, tr["events"][l - 1]["ev"]),
               what_of=lambda tr, l, clause: "real spans object disagrees with Spans.tla at event %d (%s): %s" % (
                   l, json.dumps({k: v for k, v in tr["events"][l - 1].items() if k not in ("obs", "others", "obs_a", "obs_b")})[:300], clause))
